@@ -1052,6 +1052,10 @@ func Run(ctx *core.Ctx) {
 		"dotted quads and bracketed IPv6 literals (upper-case hex, embedded IPv4, zone id, a last group that looks like a port) x no port / empty port / explicit port x absolute-form " +
 		"(plain, with userinfo, with a Host header naming another host) / origin-form on the proxy port / CONNECT / origin-form inside an intercepted CONNECT; every request is one evaluation, " +
 		"non-trivial when the authority differs from the host or some list says yes; in-process the argument of every Match call is recorded, the last cases run through the real binary; " +
+		"conc cases (child process): a list of 2-8 include rules, each with a host only it matches, and 0-3 exclude rules; 8-32 goroutines released together call Match on the matcher, its Inverse() " +
+		"and Inverse().Inverse() (80% of the calls on the hosts only one rule matches), 2-3 rounds with a fresh matcher, every answer judged, then every host asked again one call at a time; one evaluation per case, " +
+		"non-trivial when the list has two include rules or more, a rule behind the first one has such a host and at least two goroutines call; proxyconc cases (child process): such lists as deny- and direct-domains of a real proxy " +
+		"with an upstream proxy, 8-24 concurrent clients, every response judged, then one request per host one at a time; " +
 		"distinct = distinct canonical inputs")
 	ctx.Assume("Go's regexp package (parser, flag scoping, matching engines) is trusted: it is the per-rule oracle, and its flag-scoping rule is the modelled fact")
 	ctx.Assume("the host a request is addressed to is the host the generator assembled its authority from (RFC 3986 host [ ':' port ], IP-literal in brackets); Go's net/http request parsing is trusted to deliver that authority in req.URL.Host")
@@ -1102,6 +1106,24 @@ func Run(ctx *core.Ctx) {
 		}
 	}
 	rig.RemoveBinary()
+	// concurrent use: many goroutines on one matcher and its Inverse() (child process), and concurrent
+	// clients of a real proxy with such lists
+	nConc, nProxyConc := ctx.N(14, 80), ctx.N(3, 16)
+	for i := 0; i < nConc; i++ {
+		cc := genConc(ctx.Rng.Sub(), ctx.Quick())
+		runConc(ctx, cc)
+		if i == 0 {
+			ctx.Sample(cc)
+		}
+	}
+	for i := 0; i < nProxyConc; i++ {
+		pc := genProxyConc(ctx.Rng.Sub(), ctx.Quick())
+		runProxyConc(ctx, pc)
+		if i == 0 {
+			ctx.Sample(pc)
+		}
+	}
+	stopConcChild()
 	for i := 0; i < nItem; i++ {
 		r := ctx.Rng.Sub()
 		ic := genItem(r)
@@ -1141,6 +1163,20 @@ func Replay(ctx *core.Ctx, raw json.RawMessage) {
 		runSite(ctx, sc)
 		if !inRun {
 			rig.RemoveBinary()
+		}
+	case "conc":
+		var cc concCase
+		json.Unmarshal(raw, &cc)
+		runConc(ctx, cc)
+		if !inRun {
+			stopConcChild()
+		}
+	case "proxyconc":
+		var pc proxyConcCase
+		json.Unmarshal(raw, &pc)
+		runProxyConc(ctx, pc)
+		if !inRun {
+			stopConcChild()
 		}
 	default:
 		core.Fatalf("C17: unknown case kind %q", k.Kind)
